@@ -79,9 +79,12 @@ def evaluate(plan, ctx):
         pos += s
     twin.must_succeed(b, chunk_ops, "chunked training")
     mode = streams.align(a, b, normalise=False)
-    exact = plan["family"] not in ("F", "Fpos")
     linear = cfg["lp"][0] in ops.LINEAR
-    tol = 0.0 if exact else (1e-6 if linear else 1e-9)
+    # linear policies accumulate lambda*I + sum of X'X per call: with a penalty that is not a dyadic rational the
+    # chunked and the batch sums round differently in the last bit, which the property allows ("up to floating-point
+    # rounding for linear policies"); their outputs, LinTS draws included, are continuous in the model
+    exact = plan["family"] not in ("F", "Fpos") and not linear
+    tol = 0.0 if exact else ((1e-6 if plan["family"] in ("F", "Fpos") else 1e-9) if linear else 1e-9)
     scale = 1.0 if exact else max(1.0, max(abs(float(r)) for r in rew))
     for rep in range(2):
         for q in plan["queries"]:
